@@ -19,7 +19,7 @@ VERIF = os.path.dirname(os.path.dirname(os.path.abspath(__file__)))
 SPEC = os.path.join(VERIF, 'spec')
 SCRATCH = os.path.join(VERIF, '.scratch')
 REPLAY = os.path.join(VERIF, 'replay')
-EVIDENCE = os.path.join(VERIF, 'evidence')
+EVIDENCE = os.environ.get('VERIF_EVIDENCE_DIR') or os.path.join(VERIF, 'evidence')
 TLA_CP = ('/opt/veriftools/tla/tla2tools.jar:'
           '/opt/veriftools/tla/CommunityModules-deps.jar')
 PY = '/venv/bin/python'
@@ -450,7 +450,7 @@ def safe(fn):
             raise
         except BaseException as ex:    # noqa
             tb = traceback.extract_tb(ex.__traceback__)
-            where = [f for f in tb if '/repo/' in f.filename]
+            where = [f for f in tb if '/panqec/' in f.filename and '/site-packages/' not in f.filename]
             loc = f'{where[-1].filename}:{where[-1].lineno}' if where else 'harness'
             if not where:
                 raise
